@@ -1223,6 +1223,96 @@ impl crate::explore::CaseSpace for DeferredReads {
     }
 }
 
+// ---------------------------------------------------------------------------------------
+// which types a class 0 READ reports is a configuration
+// ---------------------------------------------------------------------------------------
+
+/// one point of every type; class 0 configured to leave out no type, each single type, all but
+/// one type, or every type: a class 0 READ (alone, and after classes 1/2/3) reports exactly the
+/// points of the types that are switched on, each once
+struct ClassZero;
+
+const CZ_KINDS: [Kind; 8] = [Kind::Binary, Kind::DoubleBit, Kind::BinaryOutputStatus, Kind::Counter, Kind::FrozenCounter, Kind::Analog, Kind::AnalogOutputStatus, Kind::OctetString];
+
+impl crate::explore::CaseSpace for ClassZero {
+    fn name(&self) -> String {
+        "class-zero-configuration".into()
+    }
+    fn seeded(&self) -> bool {
+        true
+    }
+    fn total(&self) -> usize {
+        (1 + 8 + 8 + 1) * 2
+    }
+    fn run(&self, index: usize, transcript: bool) -> RunResult {
+        let mut res = RunResult::default();
+        let with_events_header = index % 2 == 1;
+        let c = index / 2;
+        let mut off = [false; 8];
+        match c {
+            0 => {}
+            1..=8 => off[c - 1] = true,
+            9..=16 => {
+                off = [true; 8];
+                off[c - 9] = false;
+            }
+            _ => off = [true; 8],
+        }
+        res.obs = index as u64 + 272727;
+        let cfg = OCfg { sol_tx: 2048, confirm_timeout_ms: TO, class_zero_octet_strings: true, class_zero_off: off, ..Default::default() };
+        let mut sim = OSim::new(&cfg, 1);
+        sim.db_quiet(|db| {
+            db.add(1, None, BinaryInputConfig::default());
+            db.add(2, None, DoubleBitBinaryInputConfig::default());
+            db.add(3, None, BinaryOutputStatusConfig::default());
+            db.add(4, None, CounterConfig::default());
+            db.add(5, None, FrozenCounterConfig::default());
+            db.add(6, None, AnalogInputConfig::default());
+            db.add(7, None, AnalogOutputStatusConfig::default());
+            db.add(8, None, OctetStringConfig);
+        });
+        sim.take_out();
+        let mut objs = Vec::new();
+        if with_events_header {
+            objs.extend(app::class_headers(true, true, true, false));
+        }
+        objs.extend(app::hdr_all(60, 1));
+        sim.send(&app::request(2, fc::READ, &objs));
+        res.transitions += 1;
+        let rs: Vec<app::Resp> = sim.take_out().iter().filter_map(|t| t.frag()).filter_map(app::Resp::parse).collect();
+        if let Some(f) = sim.failure() {
+            res.violation = Some(Violation::new("C11.X0", f.clone(), f));
+            return res;
+        }
+        let key = format!("types-left-out:{:?}", CZ_KINDS.iter().zip(off.iter()).filter(|(_, o)| **o).map(|(k, _)| format!("{k:?}")).collect::<Vec<_>>());
+        if rs.len() != 1 || !rs[0].fir() || !rs[0].fin() || rs[0].seq() != 2 {
+            res.violation = Some(Violation::new("C11.Z0", key, format!("{} response fragments", rs.len())));
+            return res;
+        }
+        let ms = match rs[0].headers().map_err(|e| format!("{e:?}")).and_then(|h| decode_measurements(&h)) {
+            Ok(m) => m,
+            Err(e) => {
+                res.violation = Some(Violation::new("C11.G6", "objects-not-decodable", e));
+                return res;
+            }
+        };
+        let mut got: Vec<(Kind, u32)> = ms.iter().map(|m| (m.kind, m.index)).collect();
+        let mut want: Vec<(Kind, u32)> = CZ_KINDS.iter().enumerate().filter(|(i, _)| !off[*i]).map(|(i, k)| (*k, i as u32 + 1)).collect();
+        if transcript {
+            res.transcript.push(format!("{key}: reported {got:?}"));
+        }
+        got.sort();
+        want.sort();
+        if got != want {
+            res.violation = Some(Violation::new("C11.Z1", "class-zero-answer-is-not-the-configured-selection", format!("{key}: reported {got:?}, configured {want:?}")));
+            return res;
+        }
+        res.nontrivial = true;
+        res.model_states.push(c as u64);
+        res
+    }
+}
+
 pub fn replay(scenario: &str, path: &[usize]) -> Option<RunResult> {
     {
         use crate::explore::CaseSpace;
@@ -1234,6 +1324,9 @@ pub fn replay(scenario: &str, path: &[usize]) -> Option<RunResult> {
         }
         if scenario == DeferredReads.name() {
             return Some(DeferredReads.run(path[0], true));
+        }
+        if scenario == ClassZero.name() {
+            return Some(ClassZero.run(path[0], true));
         }
     }
     scenarios("thorough").into_iter().find(|s| s.name == scenario).map(|s| s.run(path, true))
@@ -1247,9 +1340,10 @@ pub fn check(tier: &str) -> i32 {
     c.cases(&AttrReads);
     c.cases(&EventSeries);
     c.cases(&DeferredReads);
+    c.cases(&ClassZero);
     c.finish(
         "model_checking",
-        "every event history over the listed alphabet (8-10 READ requests per database: class 0, class 1230, all objects, 8/16-bit ranges inside / overlapping / outside the index set, a specific variation, several headers; right / wrong / late solicited confirm, confirm timeout, another request, reconnect, update of a selected and of another point) up to the listed depth on five databases (packed binaries; eight types with sparse indices; 100 analogs; binaries with mixed flags; 60 analogs followed by binaries whose *flags* are updated while the series is under way) and three transmit buffer sizes; a mirrored database is snapshotted when each READ is delivered and the concatenated series is compared with it; plus timing histories (three fifths of the confirm timeout pass; the wait for a confirm ends at its deadline whatever else arrived meanwhile), and a product of waiting event counts {1,17,18,19,30,37,60} x transmit sizes {249,251,300,2048} x static tails {none, g1v0, class 0, g30 range} read together with classes 1/2/3 (every waiting event exactly once and in order, before any static object); and one or two READs (every ordered pair of 5 requests) deferred during an unsolicited confirm wait that ends by confirm or time-out, with and without an update between them: one answer, with the last READ's sequence number and exactly its selection at current values; non-trivial = a series completed (and spanned several fragments for the small buffers); distinct = distinct observation trace",
+        "every event history over the listed alphabet (8-10 READ requests per database: class 0, class 1230, all objects, 8/16-bit ranges inside / overlapping / outside the index set, a specific variation, several headers; right / wrong / late solicited confirm, confirm timeout, another request, reconnect, update of a selected and of another point) up to the listed depth on five databases (packed binaries; eight types with sparse indices; 100 analogs; binaries with mixed flags; 60 analogs followed by binaries whose *flags* are updated while the series is under way) and three transmit buffer sizes; a mirrored database is snapshotted when each READ is delivered and the concatenated series is compared with it; plus timing histories (three fifths of the confirm timeout pass; the wait for a confirm ends at its deadline whatever else arrived meanwhile), and a product of waiting event counts {1,17,18,19,30,37,60} x transmit sizes {249,251,300,2048} x static tails {none, g1v0, class 0, g30 range} read together with classes 1/2/3 (every waiting event exactly once and in order, before any static object); the class 0 configuration (no type, each single type, all but one, every type left out) against a database with one point of every type; and one or two READs (every ordered pair of 5 requests) deferred during an unsolicited confirm wait that ends by confirm or time-out, with and without an update between them: one answer, with the last READ's sequence number and exactly its selection at current values; non-trivial = a series completed (and spanned several fragments for the small buffers); distinct = distinct observation trace",
         &[
             "updates are placed at quiescent points between fragments (H6 lock-point placements are not built)",
             "values are small integers representable in every variation used (variation-specific carrying is C10's subject)",
